@@ -49,6 +49,7 @@ fn raw_op(u: &mut Unstructured, bursts: bool) -> Result<RawOp> {
         }
         29 => RawOp::WarmInsert { k: u.arbitrary()?, w: u.arbitrary()?, n: u.arbitrary()? },
         30 => RawOp::FreshLookup { sel: u.arbitrary()?, contains: u.arbitrary()? },
+        31 => RawOp::IterAdvance { after: u.arbitrary()?, sel: u.arbitrary()? },
         _ => RawOp::Counters,
     })
 }
